@@ -1156,3 +1156,4 @@ func verifRoundTripNextHop(a *PathAttributeNextHop) bool {
 //@   at-call NewIPv4AddressSpecificExtended( requires localAdmin <= 65535
 //@   at-call NewIPv6AddressSpecificExtended( requires localAdmin <= 65535
 //@   at-call NewFourOctetAsSpecificExtended( requires localAdmin <= 65535
+
